@@ -13,6 +13,7 @@ package main
 
 import (
 	"fmt"
+	"go/ast"
 	"go/constant"
 	"go/token"
 	"go/types"
@@ -80,6 +81,13 @@ type pstate struct {
 	curBlk int
 	stack  []frame     // inlined calls in progress (innermost last)
 	unroll map[int]int // loop header -> iterations unrolled so far on this path (headers in concrete mode)
+}
+
+// closureVal: a function literal created during the exploration, with the
+// values of its free variables.
+type closureVal struct {
+	fn    *ssa.Function
+	binds []*T
 }
 
 // frame: where to continue in the caller when an inlined callee returns.
@@ -160,6 +168,8 @@ type Explorer struct {
 	Err      error
 	NoInline bool
 	steps    int
+	closures map[int64]closureVal // closures created on the way, by the id in their term
+	resolved *ssa.Function        // callee of the dynamic call being recorded, when its function value is known
 	invPhi   map[*ssa.Phi]*T // loop-invariant header phis of the loop being entered
 	probing  bool // evaluating a loop header to see whether its test is decided
 	probeC   *T
@@ -798,7 +808,19 @@ func (e *Explorer) runFrom(b *ssa.BasicBlock, pred int, from int, s *pstate, sta
 			e.unkID++
 			s.regs[in] = &T{Op: "makechan", C: e.unkID, A: []*T{e.val(s, in.Size)}, Ty: in.Type()}
 		case *ssa.MakeClosure:
-			s.regs[in] = &T{Op: "closure", S: in.Fn.String(), Ty: in.Type()}
+			e.unkID++
+			ct := &T{Op: "closure", S: in.Fn.String(), C: e.unkID, Ty: in.Type()}
+			var binds []*T
+			for _, b := range in.Bindings {
+				binds = append(binds, e.val(s, b))
+			}
+			if e.closures == nil {
+				e.closures = map[int64]closureVal{}
+			}
+			if f, ok := in.Fn.(*ssa.Function); ok {
+				e.closures[ct.C] = closureVal{fn: f, binds: binds}
+			}
+			s.regs[in] = ct
 		case *ssa.Slice:
 			args := []*T{e.val(s, in.X)}
 			for _, x := range []ssa.Value{in.Low, in.High, in.Max} {
@@ -824,7 +846,21 @@ func (e *Explorer) runFrom(b *ssa.BasicBlock, pred int, from int, s *pstate, sta
 			s.seq++
 			s.regs[in] = &T{Op: "next", A: []*T{e.val(s, in.Iter)}, E: s.seq, Ty: in.Type()}
 		case *ssa.Call:
-			if callee := in.Call.StaticCallee(); callee != nil && e.shouldInline(s, callee) {
+			callee := in.Call.StaticCallee()
+			var cv *closureVal
+			if callee == nil && !in.Call.IsInvoke() {
+				// a call through a function value that is known on this path:
+				// a named function (lookup := f; lookup(x)) or a function literal
+				switch fv := e.val(s, in.Call.Value); fv.Op {
+				case "fn":
+					callee = e.W.funcByKey(fv.S)
+				case "closure":
+					if c, ok := e.closures[fv.C]; ok && e.W.closureInlinable(c.fn) {
+						callee, cv = c.fn, &c
+					}
+				}
+			}
+			if callee != nil && (cv != nil || e.shouldInline(s, callee)) && !e.onStack(s, callee) {
 				var args []*T
 				for _, a := range in.Call.Args {
 					args = append(args, e.val(s, a))
@@ -832,6 +868,13 @@ func (e *Explorer) runFrom(b *ssa.BasicBlock, pred int, from int, s *pstate, sta
 				for i, p := range callee.Params {
 					if i < len(args) {
 						s.regs[p] = args[i]
+					}
+				}
+				if cv != nil {
+					for i, fv := range callee.FreeVars {
+						if i < len(cv.binds) {
+							s.regs[fv] = cv.binds[i]
+						}
 					}
 				}
 				s.seq++
@@ -843,7 +886,11 @@ func (e *Explorer) runFrom(b *ssa.BasicBlock, pred int, from int, s *pstate, sta
 			if e.Err != nil {
 				return
 			}
+			if callee != nil && in.Call.StaticCallee() == nil && cv == nil {
+				e.resolved = callee // the function value resolved on this path
+			}
 			e.call(s, in, &in.Call, in, rb)
+			e.resolved = nil
 			if cal := in.Call.StaticCallee(); cal != nil && cal.Pkg != nil && cal.Pkg.Pkg.Path() == "os" && cal.Name() == "Exit" {
 				e.finish(s, start, "exit", nil)
 				return
@@ -1179,6 +1226,8 @@ func (e *Explorer) callEvent(s *pstate, kind string, in ssa.Instruction, c *ssa.
 		ev.Method = c.Method.Name()
 	} else if callee := c.StaticCallee(); callee != nil {
 		ev.Callee = callee
+	} else if e.resolved != nil {
+		ev.Callee = e.resolved
 	} else {
 		ev.Method = "<dynamic>"
 		args = append(args, e.val(s, c.Value))
@@ -1225,6 +1274,9 @@ var inlining = map[*ssa.Function]bool{}
 func (e *Explorer) inlinePure(fn *ssa.Function, args []*T) *T {
 	if fn.Pkg != e.W.SLib || !e.W.isPure(fn) || fn.Signature.Results().Len() != 1 || inlining[fn] || len(fn.Blocks) != 1 {
 		return nil
+	}
+	if ast.IsExported(fn.Name()) || e.W.boundary[fn] != "" {
+		return nil // exported API and anchors stay calls: rules look for them
 	}
 	inlining[fn] = true
 	defer delete(inlining, fn)
@@ -1585,4 +1637,16 @@ func (e *Explorer) loopBody(h *ssa.BasicBlock) map[*ssa.BasicBlock]bool {
 		}
 	}
 	return body
+}
+
+func (e *Explorer) onStack(s *pstate, fn *ssa.Function) bool {
+	if fn == e.Fn {
+		return true
+	}
+	for _, f := range s.stack {
+		if f.fn == fn {
+			return true
+		}
+	}
+	return false
 }
